@@ -253,6 +253,17 @@ def text(chk, crates):
             if not (arg[0] == "path" and arg[1] == vx.root_name(1) and not arg[2]):
                 whole = False
                 bad.append("decoding only %s" % show(arg)[:50])
+        # ... and on every path that returns text, the text is what the code page made of the input (no other decoding
+        # tried first: "valid UTF-8" and "CP437" disagree on every byte >= 0x80)
+        import pathsym as ps
+        pe_ = ps.PathEval(dec, {})
+        for r_ in [i for i in sorted(dec.reachable(0)) if dec.blocks[i]["term"]["t"] == "return"]:
+            for path in ps.simple_paths(dec, 0, r_):
+                env_, _ = pe_.run(path)
+                e_ = ps.norm(env_.get(0, ("pre", 0)))
+                if e_[0] == "agg" and str(e_[1]).endswith("Result::Ok"):
+                    if not any(x[0] == "call" and "yore::code_pages::" in str(x[1]) and "decode" in str(x[1]) for x in ps.walk(e_)):
+                        bad.append("a result that does not come from the code page: %s" % ps.show(e_)[:60])
         chk.require(not bad, "C17-e/text-trim", inst,
                     "the text decoder alters the decoded text by %s: only trailing NUL padding may be removed (a value with such "
                     "characters elsewhere would not come back)" % bad, "trim_end_matches('\\0') only", dec.sp())
@@ -430,7 +441,7 @@ def tags(chk, crates):
             for i in feasible_reach(dec, 0, pins=pl):
                 for st in dec.blocks[i]["stmts"]:
                     if st["s"] == "assign" and st["p"]["l"] == 0 and not st["p"]["p"] and st["rv"]["r"] == "agg" and \
-                            st["rv"].get("vname") == "Err":
+                            st["rv"].get("vname") == "Err" and not st.get("rewrap"):
                         refused.setdefault(v, set()).add(L_)
     chk.require(not refused, "C17-c/reader-total", "Encoding<Tag>::decode",
                 "the reader can refuse a tag although all its bytes are there (first byte %s): the writer emits every such tag, so "
@@ -520,6 +531,20 @@ def sentinel(chk, crates):
             ok = True
     chk.require(ok, "C17-d/reader-sentinel", "PartialReversalReceiptNo::decode",
                 "reader recognises %s as the sentinel, specification says bytes FF FF at 0..2" % rd, "bytes[0..2] == [0xFF, 0xFF]", dec.sp())
+
+    # what the writer returns is the routed codec's output as it is: the field's Fixed<2> style does the padding (in front);
+    # anything done to the bytes afterwards (resize, push, truncate ...) moves digits
+    import pathsym as ps
+    pe_ = ps.PathEval(enc, {})
+    touched = []
+    for r_ in [i for i in sorted(enc.reachable(0)) if enc.blocks[i]["term"]["t"] == "return"]:
+        for path in ps.simple_paths(enc, 0, r_):
+            env_, _ = pe_.run(path)
+            e_ = ps.strip(ps.norm(env_.get(0, ("pre", 0))))
+            if not (e_[0] == "call" and e_[1] == "zvt_builder::encoding::Encoding::encode"):
+                touched.append(ps.show(e_)[:70] if e_[0] != "call-mut" else "%s(..) applied to the encoded bytes" % str(e_[1]).rsplit("::", 1)[-1])
+    chk.require(not touched, "C17-d/writer-form", "PartialReversalReceiptNo::encode",
+                "the writer does not return the routed codec's bytes unchanged: %s" % touched[:3], "Bcd::encode / Default::encode as is", enc.sp())
 
     def routes(body, vx, direction, edge):
         """callee (E, T) generic args of encode/decode calls under / not under the sentinel edge."""
